@@ -215,6 +215,60 @@ let parse_rule rest =
     ru_ctx = (if ctx = "-" then None else Some (regex_of_string ctx));
     ru_act = nat_of_int (int_of_string act) }
 
+(* the generated code as S-expressions (GenCode.gen_program) *)
+let pairs_str (ps : (n * n) list) =
+  String.concat " " (List.map (fun (a, b) -> Printf.sprintf "%d-%d" (int_of_n a) (int_of_n b)) ps)
+let guard_str (g : guard) =
+  match g with GChain ps -> "(chain " ^ pairs_str ps ^ ")" | GTable ps -> "(table " ^ pairs_str ps ^ ")"
+let rec setacc_str (sa : setacc) =
+  match sa with
+  | SANone -> "(sa-none)"
+  | SASet a -> Printf.sprintf "(sa-set %d)" (int_of_nat a)
+  | SAIf (i, a, els) -> Printf.sprintf "(sa-if %d %d %s)" (int_of_nat i) (int_of_nat a) (setacc_str els)
+let rec gcode_buf (b : Buffer.t) (g : gcode) =
+  match g with
+  | GSetState n -> Buffer.add_string b (Printf.sprintf "(set %d)" (int_of_nat n))
+  | GReturnNone -> Buffer.add_string b "(none)"
+  | GFailBacktrack -> Buffer.add_string b "(bt)"
+  | GFailError -> Buffer.add_string b "(err)"
+  | GIf (i, t, e) ->
+      Buffer.add_string b (Printf.sprintf "(if %d " (int_of_nat i)); gcode_buf b t; Buffer.add_char b ' ';
+      gcode_buf b e; Buffer.add_char b ')'
+  | GAction a -> Buffer.add_string b (Printf.sprintf "(act %d)" (int_of_nat a))
+  | GState (sa, eoi, cas, gas, d) ->
+      Buffer.add_string b "(state "; Buffer.add_string b (setacc_str sa); Buffer.add_char b ' ';
+      gcode_buf b eoi; Buffer.add_string b " (";
+      List.iter (fun (cs, code) ->
+        Buffer.add_string b "((";
+        Buffer.add_string b (String.concat " " (List.map (fun c -> string_of_int (int_of_n c)) cs));
+        Buffer.add_string b ") "; gcode_buf b code; Buffer.add_char b ')') cas;
+      Buffer.add_string b ") (";
+      List.iter (fun (gd, code) ->
+        Buffer.add_char b '('; Buffer.add_string b (guard_str gd); Buffer.add_char b ' ';
+        gcode_buf b code; Buffer.add_char b ')') gas;
+      Buffer.add_string b ") "; gcode_buf b d; Buffer.add_char b ')'
+let cxact_str (a : cxact) =
+  match a with CXGoto n -> Printf.sprintf "(goto %d)" (int_of_nat n) | CXTrue -> "(true)" | CXFalse -> "(false)"
+let cxstate_str (st : cxstate) =
+  match st with
+  | CXAccept -> "(cx-accept)"
+  | CXMatch (eof, cas, gas, d) ->
+      Printf.sprintf "(cx-match %s (%s) (%s) %s)" (cxact_str eof)
+        (String.concat "" (List.map (fun (cs, a) ->
+           Printf.sprintf "((%s) %s)" (String.concat " " (List.map (fun c -> string_of_int (int_of_n c)) cs)) (cxact_str a)) cas))
+        (String.concat "" (List.map (fun (gd, a) -> Printf.sprintf "(%s %s)" (guard_str gd) (cxact_str a)) gas))
+        (cxact_str d)
+let pat_str (p : nat option) = match p with None -> "_" | Some k -> string_of_int (int_of_nat k)
+let print_gencode (p : program) =
+  match gen_program p with
+  | Panic t -> pr "GCODE PANIC %s\n" (tag_name t)
+  | Ok gp ->
+      List.iter (fun (pat, code) ->
+        let b = Buffer.create 256 in gcode_buf b code;
+        pr "GCODE ARM %s %s\n" (pat_str pat) (Buffer.contents b)) gp.gp_arms;
+      List.iteri (fun i fn ->
+        List.iter (fun (pat, st) -> pr "GCODE CTX %d %s %s\n" i (pat_str pat) (cxstate_str st)) fn) gp.gp_ctxs
+
 let print_artifacts (c : compiled) =
   List.iteri (fun i ca ->
     pr "CTXBEGIN %d\n" i; print_nfa ca.ca_nfa true; print_map ca.ca_map; print_dfa ca.ca_dfa tv_nat true;
@@ -233,6 +287,7 @@ let print_artifacts (c : compiled) =
     pr "ARM %d %s\n" (int_of_nat s) (match pat with None -> "_" | Some k -> string_of_int (int_of_nat k)))
     c.c_program.p_arms;
   List.iter (fun (nm, i) -> pr "SWITCH %s %d\n" (string_of_name nm) (int_of_nat i)) c.c_program.p_switch
+  ;print_gencode c.c_program
 
 let process_def (id : string) (lines : string list) ~(artifacts : bool) =
   let tops = ref [] and cur_rs = ref None and kinds = ref [] and inputs = ref [] in
@@ -477,6 +532,38 @@ let check_dump (id : string) (lines : string list) =
     let res = List.rev !states in
     if List.length res <> cnt then failwith "dfa count";
     res in
+  let ttgt s : trans =
+    if String.length s > 1 && s.[0] = 'A' then TAccept (parse_acc_list (String.sub s 2 (String.length s - 3)))
+    else TGoto (tgt s) in
+  let parse_dfa_t () : trans dfa =
+    let cnt = int_of_string (List.nth (words arr.(!i)) 1) in
+    incr i;
+    let states = ref [] in
+    let cur = ref None in
+    let flush () = match !cur with Some st -> states := st :: !states | None -> () in
+    let continue = ref true in
+    while !continue && !i < n do
+      let w = words arr.(!i) in
+      (match w with
+       | "S" :: _ :: kvs ->
+           flush ();
+           let kv k = let p = k ^ "=" in
+             let x = List.find (fun s -> String.length s >= String.length p && String.sub s 0 (String.length p) = p) kvs in
+             String.sub x (String.length p) (String.length x - String.length p) in
+           cur := Some { d_init = (kv "init" = "1"); d_chars = []; d_ranges = []; d_any = None; d_eoi = None;
+                         d_acc = parse_acc_list (kv "acc"); d_preds = nats_of (kv "preds"); d_bt = (kv "bt" = "1") };
+           incr i
+       | ["c"; c; t] -> (match !cur with Some st -> cur := Some { st with d_chars = st.d_chars @ [(n_of_int (int_of_string c), ttgt t)] } | None -> ()); incr i
+       | ["r"; lo; hi; t] -> (match !cur with Some st -> cur := Some { st with d_ranges = st.d_ranges @ [{ r_lo = n_of_int (int_of_string lo); r_hi = n_of_int (int_of_string hi); r_val = ttgt t }] } | None -> ()); incr i
+       | ["a"; t] -> (match !cur with Some st -> cur := Some { st with d_any = Some (ttgt t) } | None -> ()); incr i
+       | ["z"; t] -> (match !cur with Some st -> cur := Some { st with d_eoi = Some (ttgt t) } | None -> ()); incr i
+       | _ -> continue := false)
+    done;
+    flush ();
+    let res = List.rev !states in
+    if List.length res <> cnt then failwith "dfa count";
+    res in
+  let ctx_dfas = ref [] and rs_names = ref [] in
   pr "CHECKED %s\n" id;
   let b x = if x then 1 else 0 in
   (try
@@ -489,6 +576,7 @@ let check_dump (id : string) (lines : string list) =
            let nfa = parse_nfa () in
            let m = parse_map () in
            let d = parse_dfa () in
+           if kind = "CTXBEGIN" then ctx_dfas := d :: !ctx_dfas;
            pr "CERT %s targets=%d nranges=%d dranges=%d closed=%d shape=%d states=%d\n" kind
              (b (nfa_targets_ok_b nfa)) (b (nfa_ranges_wf_b nfa)) (b (dfa_wf_b d)) (b (dfa_closed_b nfa d m))
              (b (dfa_shape_ok_b d)) (List.length d)
@@ -496,7 +584,26 @@ let check_dump (id : string) (lines : string list) =
            incr i;
            let d = parse_dfa () in
            pr "CERT FLAGS sound=%d states=%d\n" (b (flags_sound_b d)) (List.length d)
-       | "SIMPLIFIED" :: _ -> i := n
+       | "SIMPLIFIED" :: _ ->
+           (* the code the model's generator emits for the implementation's own simplified DFA, entry map and
+              context automata: compared by harness/gencode.py with the code the macro really generated *)
+           incr i;
+           let d0 = parse_dfa_t () in
+           let entries = ref [] in
+           while !i < n do
+             (match words arr.(!i) with
+              | ["ENTRY"; nm; idx] -> entries := (nm, nat_of_int (int_of_string idx)) :: !entries
+              | _ -> ());
+             incr i
+           done;
+           let ordered = List.filter_map (fun nm ->
+             match List.assoc_opt nm !entries with Some v -> Some (name_of_string nm, v) | None -> None) (List.rev !rs_names) in
+           (match make_program mAX_GUARD_SIZE d0 ordered (List.rev !ctx_dfas) with
+            | Panic t -> pr "GCODE PANIC %s\n" (tag_name t)
+            | Ok p ->
+                List.iter (fun (nm, v) -> pr "GSWITCH %s %d\n" (string_of_name nm) (int_of_nat v)) p.p_switch;
+                print_gencode p)
+       | "RULESET" :: nm :: _ -> (if nm <> "-" then rs_names := nm :: !rs_names); incr i
        | _ -> incr i)
     done
   with Failure m -> pr "CERT ERROR %s\n" m | Not_found -> pr "CERT ERROR notfound\n" | Invalid_argument m -> pr "CERT ERROR %s\n" m);
